@@ -261,6 +261,32 @@ fn hostile_shapes(quick: bool) -> Vec<(String, String, Option<String>)> {
     v.push(("nest-call".into(), format!("function f(x) -> x;\nprint(\"~\\n\", {});\n", wrap("f(", ")", "7")), Some("7\n".into())));
     v.push(("nest-let".into(), format!("print(\"~\\n\", {});\n", wrap("begin let v = ", " end", "8")), Some("8\n".into())));
     v.push(("nest-operators".into(), format!("print(\"~\\n\", 0{});\n", " + 1".repeat(d)), Some(format!("{}\n", d))));
+    // legitimate programs that merely look like runaways: a long-running loop, one enormous output
+    // line, very many short prints
+    let iters: i64 = 3_000_000;
+    let sum: i64 = (0..iters).map(|i| i % 7).sum();
+    v.push((
+        "long-run-3000000-iterations".into(),
+        format!("let i = 0; let s = 0;\nwhile i < {} do begin s <- s + i % 7; i <- i + 1 end;\nprint(\"~ ~\\n\", i, s);\n", iters),
+        Some(format!("{} {}\n", iters, sum as i32)),
+    ));
+    let wide = 200_000usize;
+    let mut line = String::with_capacity(wide * 3 + 4);
+    line.push('[');
+    for i in 0..wide {
+        if i > 0 {
+            line.push_str(", ");
+        }
+        line.push('7');
+    }
+    line.push_str("]\n");
+    v.push(("huge-line-200000-elements".into(), format!("print(\"~\\n\", array({}, 7));\n", wide), Some(line)));
+    let mut many = String::new();
+    for i in 0..150_000 {
+        many.push_str(&i.to_string());
+        many.push('\n');
+    }
+    v.push(("many-prints-150000".into(), "let i = 0;\nwhile i < 150000 do begin print(\"~\\n\", i); i <- i + 1 end;\n".into(), Some(many)));
     // beyond the capacity of the bytecode format (u16 constants and locals, u8 arities): the program
     // must either run correctly or be refused as a whole before anything runs - never wrap around
     let n = 70_000usize;
@@ -347,7 +373,7 @@ pub fn c10(ctx: &Ctx, rep: &mut Report) {
             continue;
         }
         // the debug build needs most of a minute to refuse 70 000 constants: release only in the quick tier
-        if ctx.quick() && cfg!(debug_assertions) && ["capacity-constants-70000", "capacity-locals-70000", "capacity-fields-40000"].contains(&name.as_str()) {
+        if ctx.quick() && cfg!(debug_assertions) && ["capacity-constants-70000", "capacity-locals-70000", "capacity-fields-40000", "long-run-3000000-iterations", "many-prints-150000"].contains(&name.as_str()) {
             continue;
         }
         let f = dir.join(format!("h{}.fml", k));
